@@ -203,6 +203,95 @@ def _detached_view(pair) -> Dict[str, Any]:
     return out
 
 
+# ---------------------------------------------------------------- parameter objects the application edits in place
+# Case key "prior" (not read by the model ops): TLVs (hex) the same process has decoded EARLIER, whose parameter objects -
+# everything the get_* methods of the reserved message handed out - the application then edited in place through their
+# public attributes (dataclass fields, the values of the nested LV / byte-field objects), e.g. to turn received
+# parameters into its own report. What the line itself decodes, and what is decoded again from the earlier octets and from
+# an equal, freshly packed message, still shows the parameters that are on the wire: every decode builds its values from
+# the octets it is given. The whole history is in the line (core.redecode_after_mutation runs it and puts the edited
+# objects back), so a failing line replays in a new process.
+class _Decoded:
+    def __init__(self, mu, r, held):
+        self.mu, self.r, self.held = mu, r, held
+
+
+_PARAM_GETTERS: Dict[type, List[str]] = {}
+
+
+def _param_getters(r) -> List[str]:
+    """every get_* method of the reserved-message class (found by name, so that a getter added later is probed as well)"""
+    names = _PARAM_GETTERS.get(type(r))
+    if names is None:
+        names = sorted(n for n in dir(type(r)) if n.startswith("get_") and callable(getattr(type(r), n, None)))
+        _PARAM_GETTERS[type(r)] = names
+    return names
+
+
+def _decode_params(buf) -> Optional[_Decoded]:
+    mu = MessageToUserTlv.unpack(buf)
+    r = mu.to_reserved_msg_tlv()
+    if r is None:
+        return None
+    held: Dict[str, Any] = {}
+    for n in _param_getters(r):
+        try:
+            held[n] = getattr(r, n)()
+        except ValueError:
+            held[n] = "!value"          # (a truncated message: the getter refuses, before and after)
+        except TypeError:
+            continue                    # (a get_* method that wants arguments is not a parameter getter)
+    return _Decoded(mu, r, held)
+
+
+def _params_view(d: _Decoded) -> Dict[str, Any]:
+    """the parameter objects handed out when the message was decoded (as the application holds them) and what the getters
+    answer when they are asked again"""
+    out = {"mu": _tlv_view(d.mu), "r": _tlv_view(d.r), "held": core.public_view(d.held), "again": {}}
+    for n, x in d.held.items():
+        if x is None:
+            continue                    # (not the getter of this message type)
+        try:
+            out["again"][n] = core.public_view(getattr(d.r, n)())
+        except ValueError:
+            out["again"][n] = "!value"
+    return out
+
+
+def _edit_params(d: _Decoded):
+    restore = core.state_snapshot(d.held)       # (clean-up only)
+    core.mutate_public(d.held)
+    return restore
+
+
+def _repacked(raw: bytes) -> bytes:
+    """an equal message, built and packed afresh, followed by two further octets"""
+    try:
+        r = MessageToUserTlv.unpack(raw).to_reserved_msg_tlv()
+        return bytes(ReservedCfdpMessage(int(r.get_reserved_cfdp_message_type()), bytes(r.value)[5:]).pack()) + b"\xa5\x5a"
+    except Exception:  # noqa
+        return raw + b"\xa5\x5a"
+
+
+def _with_prior(fn):
+    """op wrapper for the case key "prior" (see above); the op itself runs first and unchanged"""
+    def wrapped(a):
+        out = fn(a)
+        prior = a.get("prior")
+        if prior:
+            own = a.get("raw") if isinstance(a.get("raw"), str) else (out.get("raw") if isinstance(out, dict) else None)
+            own_raw = unhx(own) if isinstance(own, str) else b""
+            for h in prior:
+                hb = unhx(h)
+                core.redecode_after_mutation(
+                    _decode_params, hb, _params_view, _edit_params,
+                    what="MessageToUserTlv.unpack(..).to_reserved_msg_tlv().get_*() [the parameter objects returned for the "
+                         "first decode were edited in place through their public attributes]",
+                    others=([own_raw] if own_raw != hb else []) + [_repacked(hb)])
+        return out
+    return wrapped
+
+
 # ---------------------------------------------------------------- raw-based ops
 def op_is_reserved(a):
     mu = _msg_to_user(unhx(a["raw"]))
@@ -404,6 +493,9 @@ OPS = {
     "rsv_b_put_response": op_b_put_response, "rsv_str": op_str, "rsv_dir_from_strs": op_dir_from_strs,
     "rsv_tid_eq": op_tid_eq,
 }
+for _n in list(OPS):
+    if _n in ("rsv_get", "rsv_view", "rsv_to_reserved") or _n.startswith("rsv_b_"):
+        OPS[_n] = _with_prior(OPS[_n])
 
 
 # ---------------------------------------------------------------- generator helpers (independent of the implementation)
@@ -603,6 +695,70 @@ class C18(Prop):
         yield from self.gen_malformed(rng, R)
         yield from self.gen_records(rng, R)
         yield from self.gen_sequences(rng, R)
+        yield from self.gen_edited(rng, R)
+
+    # -- parameter objects edited in place by the application, then the same / an equal message decoded again (key "prior") --
+    def gen_edited(self, rng, R):
+        def both(v: bytes, g: str, expect: str = "valid", prior=None, more: bytes = b""):
+            pr = [hx(tlv(x)) for x in (prior if prior is not None else [v])]
+            yield Case({"op": "rsv_get", "raw": hx(tlv(v) + more), "getter": g, "prior": pr}, expect, tag="edited-then-decoded")
+            if expect == "valid" and rng.random() < 0.12:
+                yield Case({"op": "rsv_view", "raw": hx(tlv(v) + more), "prior": pr}, expect, tag="edited-then-decoded")
+
+        # proxy put response: every parameter octet; the earlier message is the same one, or another one with that octet
+        for b in range(256):
+            v = MARKER + b"\x07" + bytes([b])
+            ok = "valid" if (b >> 4) in CC_MEMBERS else "invalid"
+            k = b % 3
+            yield from both(v, "put_resp", ok, prior=[v] if k == 0 else [v + rbytes(rng, 1 + b % 4)] if k == 1 else [v, v], more=unhx(sfx(rng)))
+        for cc in CC_MEMBERS:
+            dc, fs = rng.randrange(2), rng.randrange(4)
+            yield Case({"op": "rsv_b_put_response", "cc": cc, "dc": dc, "fs": fs, "via_finished": bool(cc & 1), "suffix": sfx(rng),
+                        "prior": [hx(tlv(MARKER + b"\x07" + bytes([(cc << 4) | (dc << 2) | fs])))]}, "valid", tag="edited-then-built")
+        # originating transaction ID: all 16 width pairs
+        for sw in W:
+            for qw in W:
+                sv, qv = rng.randrange(256 ** sw), rng.randrange(256 ** qw)
+                yield from both(v_orig(sw, sv, qw, qv), "orig_id")
+                if rng.random() < 0.4:
+                    yield Case({"op": "rsv_b_orig_id", "src_w": sw, "src_v": sv, "seq_w": qw, "seq_v": qv, "suffix": sfx(rng),
+                                "prior": [hx(tlv(v_orig(sw, sv, qw, qv)))]}, "valid", tag="edited-then-built")
+        # proxy put request, directory listing request / response: names of several lengths
+        for w in W:
+            for _ in range(2 * R):
+                dv, s, d = rng.randrange(256 ** w), name(rng, rng.randint(0, 12)), name(rng, rng.randint(0, 12))
+                yield from both(v_put_req(w, dv, s, d), "put_req")
+                if rng.random() < 0.4:
+                    yield Case({"op": "rsv_b_put_request", "dest_w": w, "dest_v": dv, "src": hx(s), "dst": hx(d), "suffix": sfx(rng),
+                                "prior": [hx(tlv(v_put_req(w, dv, s, d)))]}, "valid", tag="edited-then-built")
+        for _ in range(4 * R):
+            p, n = name(rng, rng.randint(0, 12)), name(rng, rng.randint(0, 12))
+            ok = bool(rng.getrandbits(1))
+            yield from both(v_dir_req(p, n), "dir_req")
+            yield from both(v_dir_resp(ok, p, n), "dir_resp")
+            yield Case({"op": "rsv_b_dir_response", "path": hx(p), "name": hx(n), "success": ok, "suffix": sfx(rng),
+                        "prior": [hx(tlv(v_dir_resp(ok, p, n))), hx(tlv(v_dir_req(p, n)))]}, "valid", tag="edited-then-built")
+            yield Case({"op": "rsv_b_dir_request", "path": hx(p), "name": hx(n), "suffix": sfx(rng),
+                        "prior": [hx(tlv(v_dir_req(p, n)))]}, "valid", tag="edited-then-built")
+        # the one-octet parameters (listing options, closure flag, transmission mode): every value of the bits that count
+        for b in list(range(8)) + [0x80, 0xFE, 0xFF]:
+            o = bytes([b])
+            yield from both(MARKER + b"\x15" + o, "dir_opts")
+            yield from both(MARKER + b"\x0b" + o, "closure")
+            yield from both(MARKER + b"\x04" + o, "tx_mode")
+        for r in (0, 1):
+            for al in (0, 1):
+                yield Case({"op": "rsv_b_dir_params", "recursive": r, "all": al, "suffix": sfx(rng),
+                            "prior": [hx(tlv(MARKER + b"\x15" + bytes([(r << 1) | al])))]}, "valid", tag="edited-then-built")
+        # messages of every kind decoded and edited before one of them is decoded again
+        for _ in range(4 * R):
+            w = rng.choice(W)
+            kinds = [(v_put_req(w, rng.randrange(256 ** w), name(rng, 5), name(rng, 7)), "put_req"),
+                     (v_orig(w, rng.randrange(256 ** w), 2, rng.randrange(65536)), "orig_id"),
+                     (MARKER + b"\x07" + bytes([(rng.choice(CC_MEMBERS) << 4) | rng.randrange(8)]), "put_resp"),
+                     (v_dir_resp(True, name(rng, 4), name(rng, 4)), "dir_resp"), (MARKER + b"\x15\x02", "dir_opts")]
+            v, g = rng.choice(kinds)
+            yield from both(v, g, prior=[x for x, _ in kinds])
 
     # -- sequences: a message decoded earlier must not follow a later decode; long messages packed repeatedly ---------
     def gen_sequences(self, rng, R):
